@@ -278,6 +278,72 @@ def run_shard(arg):
     return part.result()
 
 
+# ---- diagnostics of the type checker: raised after parsing, on whatever node the checker holds --------------------------------
+# one semantically wrong construct per document, in the global or the template-local declarations; every diagnostic must carry a
+# position inside that block (a node without a position shows up in the last element of the document with absurd columns)
+TYPE_ERRORS = [
+    "void f1() { for (b : bool) { } }", "void f2() { for (b : chan) { } }", "void f3() { for (b : clock) { } }", "void f4() { for (b : double) { } }",
+    "void f5() { for (b : int) { } }", "typedef struct { int a; } rq; void f6() { for (b : rq) { } }", "void f7(void &v) { }", "void f8(chan c) { }",
+    "typedef int vq[2]; vq f9() { }", "clock f10() { }", "chan f11() { }", "typedef struct { clock c; } rc; rc f12() { }",
+    "int f13() { return forall (b : clock) true; }", "int f14() { return sum (b : bool) 1; }", "int f15() { return exists (b : double) true; }",
+    "int[0, 1.5] r16;", "int[true, 2] r17;", "int a18[1.5];", "int a19[-1];", "scalar[1.5] s20;", "typedef struct { void f; } r21; r21 v21;",
+    "typedef struct { int a; int a; } r22;", "const int c23;", "int f24(int q) { return; }", "void f25() { return 1; }", "int f26() { int t; }",
+    "int v27 = 1.5 + true + \"s\";", "bool b28 = 1.5;", "clock x29 = true && 1.5;", "int f30() { int q; return q.f; }", "int f31() { int q; return q[1]; }",
+    "int f32() { return f32(); }", "void f33() { break; }", "meta clock m34;", "const clock c35;", "hybrid int h36;", "urgent int u37;", "broadcast int b38;",
+    "int i39 = i39;", "int f40(int &r) { return r; } int u40 = f40(1);", "int f41(int a[2]) { return a[0]; } int b41[3]; int u41 = f41(b41);",
+    "void f42() { 1 = 2; }", "void f43() { int x; x++ ++; }", "void f44(chan &c) { c = c; }", "void f45() { assert(1.5 + \"s\"); }",
+    "void f46() { while (\"s\") { } }", "void f47() { if (c) { } }", "void f48() { do { } while (1.5 + true); }", "void f49() { int t; for (t = 0; \"s\"; t++) { } }",
+    "struct { int a; } s50 = { 1, 2 };", "int a51[2] = { 1, 2, 3 };", "struct { int a; int b; } s52 = { b: 1, 2 };", "struct { int a; } s53 = { nosuch: 1 };",
+    "chan priority i < default;", "int f55() { return nosuchfn(1); }", "int v56; int f56() { return v56(1); }", "int f57(int a) { return a; } int u57 = f57(1, 2);",
+]
+
+
+def run_type_errors(arg):
+    i, n = arg
+    part = engine.Part()
+    w = engine.worker("fast")
+    g0 = "int i; clock x; chan c;"
+    cases = []
+    for k, d in enumerate(TYPE_ERRORS):
+        if k % n != i:
+            continue
+        for where in ("global", "local"):
+            for lead in ("", "\n\n", "int pad1;\nint pad2; "):
+                text = lead + d
+                t = X.template("T", decl=("int l;\n" + text) if where == "local" else "int l;", locations=[X.location("id0", "L0", inv="i >= 0")], init="id0",
+                               transitions=[X.transition("id0", "id0", guard="i == 0", assign="i = 1")])
+                doc = X.nta(g0 + ("\n" + text if where == "global" else ""), [t], "system T;")
+                cases.append((d, where, lead, doc))
+    res = X.run_docs(w, [c[3] for c in cases], want=["noinv"], batch=50)
+    for (d, where, lead, doc), r in zip(cases, res):
+        part.count()
+        key = "type error `%s` in the %s declarations (lead %r)" % (d, where, lead)
+        rp = {"op": "xml", "buf": doc}
+        if engine.check_crash(part, PID, r, key, rp):
+            continue
+        if r.get("exc") is not None:
+            part.outcome("exception")
+            continue
+        part.nontrivial_case("type-error:%s:%s:%r" % (d, where, lead))
+        root = ET.fromstring(doc.encode())
+        diags = [("error", e) for e in r.get("errors", [])] + [("warning", e) for e in r.get("warnings", [])]
+        if not diags:
+            part.outcome("type-error:not-diagnosed")
+            continue
+        fid = re.sub(r"\d+", "", d.split("(")[0].split("=")[0].strip())[:28]
+        good = check_positions(root, diags, part, "type-error", key, rp, fid)
+        xp = "/nta/declaration" if where == "global" else "/nta/template[1]/declaration"
+        other = [g for g in good if g[0] != xp]
+        if len(good) != len(diags):
+            continue        # reported by check_positions
+        if other:
+            part.outcome("type-error:attributed-elsewhere")
+            part.violation("type-error-elsewhere:%s" % fid, "%s: diagnostic `%s` is attributed to %s" % (key, other[0][5], other[0][0]), rp)
+        else:
+            part.outcome("type-error:positions-ok")
+    return part.result()
+
+
 def main():
     t = engine.tier()
     variants = LAYOUTS_T      # both tiers: all seven layouts, both base models (seconds)
@@ -298,6 +364,8 @@ def main():
                 sys.exit(2)
     shards = [(mid, b, variants) for mid in ["A", "B"] for b in BLOCKS_A] + [("C", b, variants) for b in ("gdecl", "ldecl", "guard", "system")]
     for res in engine.pmap(run_shard, shards):
+        rep.merge(res)
+    for res in engine.pmap(run_type_errors, [(i, engine.ncpu()) for i in range(engine.ncpu())]):
         rep.merge(res)
     rep.assumptions = ["Python's ElementTree over the same bytes is the independent DOM; lines are the '\\n'-separated lines of the "
                        "element's decoded text, columns are 0-based half-open offsets",
